@@ -34,16 +34,16 @@ def ladder(n_pop, ratio, laws, blank, rfi_min=3.0):
     return rfi, mef
 
 
-def to_channel(x):
+def to_channel(x, a0=A0):
     """RFI -> channel number of the integer container (clipped to the detector range)"""
     if x <= 0:
         return 0
-    c = RES / A0 * math.log10(x / A1)
+    c = RES / a0 * math.log10(x / A1)
     return int(min(RES - 1, max(0, round(c))))
 
 
-def from_channel(c):
-    return A1 * 10 ** (A0 * c / RES)
+def from_channel(c, a0=A0):
+    return A1 * 10 ** (a0 * c / RES)
 
 
 def bead_sample(spec):
@@ -52,6 +52,7 @@ def bead_sample(spec):
     names (fluorescence channel names), order ('shuffled'|'sorted'|'reversed'|'interleaved')
     Returns (layout, truth) with truth = dict(labels per event, rfi, mef, fl_names)."""
     rs = np.random.RandomState(1000003 * (spec.get('stream', 0) + 1) % (2 ** 31))
+    a0 = float(spec.get('decades', A0))
     n_pop, ratio, cv = spec['n_pop'], spec['ratio'], spec['cv']
     laws = spec['laws']
     nch = len(laws)
@@ -73,7 +74,7 @@ def bead_sample(spec):
                     mu = 0.5            # blank without autofluorescence: bottom of the detector
                 v = mu * math.exp(sigma * z[i, c])
                 if sat == 'brightest' and j == n_pop - 1:
-                    v = 10 ** (A0 + 0.5)      # beyond the detector range: piles up at the upper limit
+                    v = 10 ** (a0 + 0.5)      # beyond the detector range: piles up at the upper limit
                 if sat == 'dimmest' and j == 0:
                     v = 0.01                  # below the detector range: piles up at the lower limit
                 fl.append(v)
@@ -102,10 +103,10 @@ def bead_sample(spec):
         events = []
         for t, r in enumerate(rows):
             events.append([int(min(1023, max(0, round(r[0])))), int(min(1023, max(0, round(r[1]))))] +
-                          [to_channel(v) for v in r[2:]] + [t])
+                          [to_channel(v, a0) for v in r[2:]] + [t])
         lay = dict(datatype='I', bits=[16] * (D - 1) + [32], ranges=[1024] * (D - 1) + [2 ** 24], names=names,
-                   pne=['0,0', '0,0'] + ['%g,%g' % (A0, A1)] * nch + ['0,0'], events=events, byteord='4,3,2,1', extra=extra)
-        values = [[float(e[0]), float(e[1])] + [from_channel(c) for c in e[2:2 + nch]] for e in events]
+                   pne=['0,0', '0,0'] + ['%g,%g' % (a0, A1)] * nch + ['0,0'], events=events, byteord='4,3,2,1', extra=extra)
+        values = [[float(e[0]), float(e[1])] + [from_channel(c, a0) for c in e[2:2 + nch]] for e in events]
     else:
         events, values = [], []
         for t, r in enumerate(rows):
